@@ -32,6 +32,11 @@ def spline_harnesses(props, tier, wrappers=True, directions=(False, True)):
             hs.append(spline_harness(FAMILIES[name], 2, inv, props, tag=",floors", **kw))
             if tier != "quick":
                 hs.append(spline_harness(FAMILIES[name], 3, inv, props, tag=",floors", **kw))
+    # floors that cannot be honoured must be refused (ValueError), each of the two separately
+    if "C09" in props or "C17" in props:
+        for name in ("quadratic", "cubic", "rq"):
+            hs.append(spline_harness(FAMILIES[name], 2, False, props, tag=",height-floor-infeasible", infeasible_floors=True, min_bin_width=0.01, min_bin_height=0.6))
+            hs.append(spline_harness(FAMILIES[name], 2, False, props, tag=",width-floor-infeasible", infeasible_floors=True, min_bin_width=0.6, min_bin_height=0.01))
     for inv in directions:
         hs.append(spline_harness(FAMILIES["rq"], 2, inv, props, tag=",ident", enable_identity_init=True))
         for K in (1, 2, 3):
